@@ -208,13 +208,13 @@ func c09QFLayouts(c c09QFCase, thorough bool, visit func(fr QUICFrames) bool) {
 func c09QFNonTilings(L int) map[string]QUICFrames {
 	h := L / 2
 	return map[string]QUICFrames{
-		"gap":             {QUICFrameCrypto{0, h}, QUICFrameCrypto{h + 1, 0}},
-		"short":           {QUICFrameCrypto{0, h}},
-		"overlap":         {QUICFrameCrypto{0, 0}, QUICFrameCrypto{h, 0}},
-		"too-long":        {QUICFrameCrypto{0, L + 3}},
-		"offset-past-end": {QUICFrameCrypto{0, L}, QUICFrameCrypto{L + 2, 0}},
-		"negative-length": {QUICFrameCrypto{0, -1}},
-		"lowest-not-zero": {QUICFrameCrypto{7, 0}},
+		"gap":              {QUICFrameCrypto{0, h}, QUICFrameCrypto{h + 1, 0}},
+		"short":            {QUICFrameCrypto{0, h}},
+		"overlap":          {QUICFrameCrypto{0, 0}, QUICFrameCrypto{h, 0}},
+		"too-long":         {QUICFrameCrypto{0, L + 3}},
+		"offset-past-end":  {QUICFrameCrypto{0, L}, QUICFrameCrypto{L + 2, 0}},
+		"negative-length":  {QUICFrameCrypto{0, -1}},
+		"lowest-not-zero":  {QUICFrameCrypto{7, 0}},
 		"negative-padding": {QUICFrameCrypto{0, 0}, QUICFramePadding{Length: -1}},
 	}
 }
@@ -299,11 +299,11 @@ func c09AllPairs() []c09Pair {
 }
 
 type c09QRCase struct {
-	L, Base          int
-	Ping, Cry, Pad   c09Pair
-	Length           uint16
-	LenClass         string
-	Deep             bool // enumerate the draws with the large cap
+	L, Base        int
+	Ping, Cry, Pad c09Pair
+	Length         uint16
+	LenClass       string
+	Deep           bool // enumerate the draws with the large cap
 }
 
 func c09VarintLen(v int) int {
